@@ -70,6 +70,19 @@ def C02_effects_converge_stmt : Prop :=
   ∀ (p : Prog) (ops : List Op), WF p = true → progNoUntracked p = true → opsNoLifecycle ops = true →
     ready (run p ops) = [] → allEffectsCurrent p (run p ops) = true
 
+theorem run_append (p : Prog) (a b : List Op) :
+    run p (a ++ b) = b.foldl (fun s o => (step p s o).1) (run p a) := by
+  simp only [run, List.foldl_append]
+
+theorem isEff_kind {p : Prog} {s : State} (h : InvR p s) {e : Nat} (he : isEff p e = true) :
+    (s.get e).kind = .eff := by
+  simp only [isEff] at he
+  cases hp : p[e]? with
+  | none => rw [hp] at he; cases he
+  | some d =>
+    rw [h.kind e d hp]
+    cases d <;> simp_all [kindOf]
+
 /-! ## F-C02-2 and the theorem for effects that do not write -/
 
 /-- F-C02-2 (self-feedback-stale): `m = s + s`, an effect that reads `m`, writes `s := m`, reads `m` again.
@@ -130,7 +143,7 @@ theorem C02_effects_converge_readonly :
     | some d =>
       rw [hq.inv.kind i d hp]
       cases d <;> simp_all [kindOf]
-  obtain ⟨hruns, hvals⟩ := effects_current hwf ht ops hplain hidle i hk hro
+  obtain ⟨hruns, hvals⟩ := effects_current hwf ht ops hplain hidle i hk (NoFB.of_noWrite hro)
   simp only [effCurrent, Bool.and_eq_true, bne_iff_ne, ne_eq, List.all_eq_true, beq_iff_eq]
   exact ⟨hruns, fun z hz => hvals z hz⟩
 
@@ -154,7 +167,7 @@ theorem C02_unnotified_effect_current :
     | some d =>
       rw [hq.inv.kind i d hp]
       cases d <;> simp_all [kindOf]
-  obtain ⟨hruns, hvals⟩ := effect_current_of_unnotified hwf ht ops hplain i hk hro hch
+  obtain ⟨hruns, hvals⟩ := effect_current_of_unnotified hwf ht ops hplain i hk (NoFB.of_noWrite hro) hch
   simp only [effCurrent, Bool.and_eq_true, bne_iff_ne, ne_eq, List.all_eq_true, beq_iff_eq]
   exact ⟨hruns, fun z hz => hvals z hz⟩
 
@@ -170,12 +183,51 @@ theorem C02_effects_converge_nowrite :
   | false => exact .inl rfl
   | true => exact .inr (C02_effects_converge_readonly p ops hwf ht hops hidle i hi (hro i hi))
 
-/-- OPEN (stronger than `C02_effects_converge_readonly`, not attempted): effects may write, provided no
-effect writes a signal on which one of the nodes it reads depends (no self-feedback, which excludes
-F-C02-2); then ALL effects are current at idle. -/
+/-- **proved** (stronger than `C02_effects_converge_readonly`): effects may write, provided no effect
+writes a signal on which one of the nodes it reads depends (`noSelfFeedback`, decidable, defined in
+`Proofs/ReactiveBasic.lean` from the static read/write sets of the bodies; it excludes F-C02-2);
+then ALL effects are current at every idle point. -/
+theorem C02_effects_converge_nofeedback :
+    ∀ (p : Prog) (ops : List Op), WF p = true → progNoUntracked p = true → opsNoLifecycle ops = true →
+      noSelfFeedback p = true → ready (run p ops) = [] → allEffectsCurrent p (run p ops) = true := by
+  intro p ops hwf ht hops hnf hidle
+  have hplain : ∀ o ∈ ops, o.plain = true := by
+    intro o ho
+    simp only [opsNoLifecycle, List.all_eq_true] at hops
+    have := hops o ho
+    cases o <;> simp_all [Op.plain]
+  have hq := run_quiet hwf (memoOK_of_wf hwf) (effOK_of_wf hwf ht) ops
+  simp only [allEffectsCurrent, List.all_eq_true, List.mem_range, Bool.or_eq_true, Bool.not_eq_true']
+  intro i _
+  cases hi : isEff p i with
+  | false => exact .inl rfl
+  | true =>
+    right
+    have hk := isEff_kind hq.inv hi
+    obtain ⟨b, hb⟩ : ∃ b, p[i]? = some (.eff b) := by
+      simp only [isEff] at hi
+      cases hp : p[i]? with
+      | none => rw [hp] at hi; cases hi
+      | some d => cases d <;> simp_all
+    obtain ⟨hruns, hvals⟩ := effects_current hwf ht ops hplain hidle i hk (NoFB.of_noSelfFeedback hwf hnf hb)
+    simp only [effCurrent, Bool.and_eq_true, bne_iff_ne, ne_eq, List.all_eq_true, beq_iff_eq]
+    exact ⟨hruns, fun z hz => hvals z hz⟩
+
+/-- non-vacuity: an effect that reads memo `m = s0` and writes `s1` (no feedback), observed by a second effect -/
+example :
+    let p : Prog := [.sig 0, .sig 0, .memo (.rd true 0), .eff (.wr 1 (.rd true 2)), .eff (.rd true 1)]
+    let ops : List Op := [.idle, .set 0 3, .idle]
+    WF p = true ∧ progNoUntracked p = true ∧ noSelfFeedback p = true ∧ effReadOnly p 3 = false ∧
+    ready (run p ops) = [] ∧ allEffectsCurrent p (run p ops) = true ∧
+    ((run p ops).get 1).val = some 3 ∧ ((run p ops).get 4).runs = 2 := by decide +kernel
+
+/-- the former OPEN statement, now `C02_effects_converge_nofeedback` -/
 def C02_effects_converge_nofeedback_stmt : Prop :=
   ∀ (p : Prog) (ops : List Op), WF p = true → progNoUntracked p = true → opsNoLifecycle ops = true →
     noSelfFeedback p = true → ready (run p ops) = [] → allEffectsCurrent p (run p ops) = true
+
+theorem C02_effects_converge_nofeedback_stmt_holds : C02_effects_converge_nofeedback_stmt :=
+  C02_effects_converge_nofeedback
 
 example : noSelfFeedback c02SelfProg = false ∧ noSelfFeedback c02Prog = true := by decide +kernel
 
@@ -189,19 +241,6 @@ example :
   decide +kernel
 
 /-! ## lifecycle clauses: a disposed / paused effect never runs (all WF programs, all histories) -/
-
-theorem run_append (p : Prog) (a b : List Op) :
-    run p (a ++ b) = b.foldl (fun s o => (step p s o).1) (run p a) := by
-  simp only [run, List.foldl_append]
-
-theorem isEff_kind {p : Prog} {s : State} (h : InvR p s) {e : Nat} (he : isEff p e = true) :
-    (s.get e).kind = .eff := by
-  simp only [isEff] at he
-  cases hp : p[e]? with
-  | none => rw [hp] at he; cases he
-  | some d =>
-    rw [h.kind e d hp]
-    cases d <;> simp_all [kindOf]
 
 /-- **disposed effects never run**: after `.dispose e` no `Ev.ran e` is ever logged again, whatever
 happens later (writes, reads, polls, pause / resume, further disposes). -/
